@@ -1,6 +1,7 @@
 package main
 
 import (
+	_ "verif/harness/c01"
 	_ "verif/harness/c06"
 	_ "verif/harness/c11"
 	_ "verif/harness/c12"
